@@ -314,6 +314,7 @@ func GenCtl(t *rapid.T) CaseCtl {
 
 type actorRun struct {
 	op     *vkit.Op
+	pre    bool // acquired with an already cancelled context
 	cancel context.CancelFunc
 	w      *semap.Weighted
 	err    error
@@ -409,6 +410,14 @@ func ExecCtl(c CaseCtl) *vkit.Result {
 						stepNo, what, a, rwName(m.write[a]), m.key[a], m.keys[m.key[a]].held, m.keys[m.key[a]].queue)
 					return false
 				}
+				if got == "failed" && r.pre && want == stHolding && r.relOp == nil {
+					// the statement does not say whether an acquire whose context had already ended may still
+					// succeed when it fits (the code says "may"): failing fast is accepted too - it then holds nothing
+					delete(m.keys[m.key[a]].held, a)
+					m.status[a] = stCancelled
+					res.Class("pre-cancelled-acquire-refused-although-it-fits")
+					continue
+				}
 				if got == "failed" {
 					res.Failf("spurious-failure", "step %d (%s): actor %d failed with %v though the model admits it", stepNo, what, a, r.err)
 					return false
@@ -488,7 +497,7 @@ func ExecCtl(c CaseCtl) *vkit.Result {
 				cancel()
 				res.Class("pre-cancelled-acquire")
 			}
-			r := &actorRun{cancel: cancel}
+			r := &actorRun{cancel: cancel, pre: st.PreCancel}
 			runs[st.Actor] = r
 			key, write := keyOf(st.Key), st.Write
 			m.next++
